@@ -17,6 +17,8 @@ CLAIMED = {
          'Strategy optimality is only judged when the requester has no other outstanding request (loads are then unambiguous); the strategy is attributed from the operation log (explicit strategy of the last accepted start/restart_application) or the application rules'),
  'C05': ('6/C05', 'Conciliation episodes of the Master (entered on STATE publication, closed on return to OPERATION) in runs where duplicates come from direct supervisor.startProcess and from partition heals, all six strategies: detection at the tick (idle Master, managed conflict persisting), exact stop set per strategy from the requests pushed by the Master (true spawn times of the copies from the simulator, with the documented uptime tolerance), nothing outside the conflict set, at most one restart per round, USER inert, no conflict left at exit.',
          'Episodes overlapping a fault are not judged (quantifier has none during conciliation); wrong copy kept because of a stale Master view is a recorded consequence of the C12 findings'),
+ 'C06': ('6/C06', 'Two deciders: (a) in every run, RunningFailureHandler.add_job calls of every instance are mirrored into a reference model of the four job sets (documented precedence, sequenced-only subsumption) and compared after each call, plus the mutual-exclusion invariant; (b) end to end: one instance crashed at a random instant (also during DISTRIBUTION) with all children starting normally, then >= 120 s of quiet: per application the governing strategy (precedence, promotion) must show in the true final placement and in the requests pushed since the loss (RESTART_PROCESS exactly one copy or an attempt ending FATAL, STOP_APPLICATION nothing left running, CONTINUE no request, nothing started twice).',
+         'Runs where a new DISTRIBUTION followed the loss (Master lost, late joiner) are not judged end to end: the documented repair of applications in failure masks the strategy; known finding: endless restart loop when the command cannot be executed'),
  'C07': ('6/C07', 'Per (observer, peer) monitor in every simulated run: a RUNNING/CHECKED peer declared FAILED/STOPPED/ISOLATED must be justified by silence (> inactivity_ticks local ticks since the last TICK delivered to the listener), a failed XML-RPC, or a restart; a silent peer must be out of the active states at the stated tick and invalidated by the next; fencing rule; lost processes unlisted and FATAL; instance state graph incl. ISOLATED final and local never ISOLATED.',
          'Accuracy is judged on deliveries observed by the simulator (sound under any delay); crash / restart (stealth) / partition (refuse, blackhole, directed) / heal / stall / slow links, inactivity_ticks 2-5, both auto_fence values'),
  'C08': ('6/C08', 'Liveness after faults stop: crash / restart / healed partitions / process failures placed in every FSM state (triggers on ELECTION, DISTRIBUTION, CONCILIATION), then >= 200 s + synchro_timeout of simulated quiet; every member of every satisfiable component must be in OPERATION (CONCILIATION with USER and a real conflict) with no job pending.',
